@@ -46,13 +46,20 @@ LNAMES = ('x', 'y', 'z', 'a')
 CTXS = ('return', 'assign', 'if', 'try', 'with', 'listcomp', 'dictcomp', 'genexp', 'nested', 'lambda',
         'decoyarg', 'ternary', 'nested2', 'lambda_default', 'walrus', 'fstring', 'starred_display',
         'nested_decoyarg', 'lambda_decoykw', 'lambda_subscript', 'comp_rebinds_args', 'comp_rebinds_kwargs',
-        'nested_lambda', 'lambda_lambda')
-NESTED_CTXS = ('nested', 'lambda', 'nested2', 'nested_decoyarg', 'lambda_decoykw', 'lambda_subscript', 'nested_lambda', 'lambda_lambda')
+        'nested_lambda', 'lambda_lambda',
+        'nested_early', 'lambda_early', 'nested_listcomp', 'lambda_dictcomp', 'nested_listcomp_early', 'lambda_dictcomp_early',
+        'nested_genexp_early', 'lambda_setcomp_early')
+NESTED_CTXS = ('nested', 'lambda', 'nested2', 'nested_decoyarg', 'lambda_decoykw', 'lambda_subscript', 'nested_lambda', 'lambda_lambda',
+               'nested_early', 'lambda_early', 'nested_listcomp', 'lambda_dictcomp', 'nested_listcomp_early', 'lambda_dictcomp_early',
+               'nested_genexp_early', 'lambda_setcomp_early')
+# in the *_early contexts the nested function is defined at the top of the body (before the taint statements) and called where
+# the forwarding statement stands: what it forwards is what the names denote when it runs
+HOIST = '\x00'
 ROUTES = ('global', 'closure', 'attr', 'self_method', 'self_attr', 'param', 'partial_inner',
           'shadow_posonly', 'shadow_lambda', 'shadow_nested', 'shadow_comp', 'local_rebind', 'missing', 'noncallable',
-          'classmethod_cls', 'closure_like_global', 'param_shadow_lambda', 'self_shadow_nested')
+          'classmethod_cls', 'closure_like_global', 'param_shadow_lambda', 'param_shadow_kwonly', 'self_shadow_nested', 'param_default')
 UNRESOLVABLE = ('shadow_posonly', 'shadow_lambda', 'shadow_nested', 'shadow_comp', 'local_rebind', 'missing', 'noncallable',
-                'param_shadow_lambda', 'self_shadow_nested')
+                'param_shadow_lambda', 'param_shadow_kwonly', 'self_shadow_nested', 'param_default')
 STAR_MODES = ('own', 'none', 'foreign', 'own+f')
 TAINTS = {
     # name: (target, statement template, what reaches the callee afterwards)
@@ -182,7 +189,7 @@ def normalise(prog):
         prog['deco'] = 'none'
     if prog['deco'] == 'autokwoargs' and not any(p.kind == POK and p.default is not None for p in outer):
         prog['deco'] = 'none'
-    if prog['route'] in ('self_method', 'self_attr', 'param', 'classmethod_cls', 'param_shadow_lambda', 'self_shadow_nested') and prog['deco'] in ('kwoargs', 'autokwoargs', 'wraps', 'wrapping'):
+    if prog['route'] in ('self_method', 'self_attr', 'param', 'classmethod_cls', 'param_shadow_lambda', 'param_shadow_kwonly', 'self_shadow_nested', 'param_default') and prog['deco'] in ('kwoargs', 'autokwoargs', 'wraps', 'wrapping'):
         prog['deco'] = 'none'
     if prog['route'] in ('self_method', 'self_shadow_nested'):
         # leaves become methods: only plain functions make sense there
@@ -234,6 +241,13 @@ def normalise(prog):
     # taints naming a star the wrapper does not have are dropped
     has = {'args': any(p.kind == VP for p in outer), 'kwargs': any(p.kind == VK for p in outer)}
     prog['taints'] = [t for t in prog['taints'] if has[(TAINTS.get(t['name']) or HARMLESS[t['name']])[0]]]
+    # statements that would raise a TypeError of their own on a star rebound to a class / function (len(), slicing, iteration,
+    # +=, item assignment) are not combined with that rebinding: the only TypeErrors of a program are binding errors
+    tn = set(t['name'] for t in prog['taints'])
+    if 'class_args' in tn:
+        prog['taints'] = [t for t in prog['taints'] if t['name'] not in ('len_args', 'index_args', 'iter_args', 'aug_args')]
+    if 'def_kwargs' in tn:
+        prog['taints'] = [t for t in prog['taints'] if t['name'] not in ('setitem_kwargs',)]
     if prog.get('argexpr') == 'param' and not [p for p in outer if p.kind in (PO, POK, KWO)]:
         prog['argexpr'] = 'const'
     # an unresolvable callee only matters in a call that forwards a star (others are ignored,
@@ -383,6 +397,22 @@ def _stmt(ctx, expr, j):
         return '%s = [%s for {A} in (HA,)][0]\n' % (r, expr)
     if ctx == 'comp_rebinds_kwargs':
         return '%s = [%s for {K} in (dict(HK),)][0]\n' % (r, expr)
+    if ctx == 'nested_early':
+        return 'def _inner%d():\n    return %s\n%s%s = _inner%d()\n' % (j, expr, HOIST, r, j)
+    if ctx == 'lambda_early':
+        return '_lam%d = lambda: %s\n%s%s = _lam%d()\n' % (j, expr, HOIST, r, j)
+    if ctx == 'nested_listcomp':
+        return 'def _inner%d():\n    return [%s for _i in (0,)][0]\n%s = _inner%d()\n' % (j, expr, r, j)
+    if ctx == 'lambda_dictcomp':
+        return '%s = (lambda: {0: %s for _i in (0,)}[0])()\n' % (r, expr)
+    if ctx == 'nested_listcomp_early':
+        return 'def _inner%d():\n    return [%s for _i in (0,)][0]\n%s%s = _inner%d()\n' % (j, expr, HOIST, r, j)
+    if ctx == 'lambda_dictcomp_early':
+        return '_lam%d = lambda: {0: %s for _i in (0,)}[0]\n%s%s = _lam%d()\n' % (j, expr, HOIST, r, j)
+    if ctx == 'nested_genexp_early':
+        return 'def _inner%d():\n    return list(%s for _i in (0,))[0]\n%s%s = _inner%d()\n' % (j, expr, HOIST, r, j)
+    if ctx == 'lambda_setcomp_early':
+        return '_lam%d = lambda: list({%s for _i in (0,)})[0]\n%s%s = _lam%d()\n' % (j, expr, HOIST, r, j)
     if ctx == 'nested_lambda':
         # the intermediate scope binds no name at all
         return 'def _outer%d():\n    return (lambda: %s)()\n%s = _outer%d()\n' % (j, expr, r, j)
@@ -436,7 +466,7 @@ def render(prog):
             'shadow_posonly': n, 'shadow_lambda': n, 'shadow_nested': n, 'shadow_comp': n, 'local_rebind': n,
             'missing': 'MISSING%d' % i, 'noncallable': 'NONCALLABLE', 'classmethod_cls': 'cls.%s' % n,
             'closure_like_global': 'ALT' if i == 0 else '_c%d' % i,      # the closure variable is spelled like a module global
-            'param_shadow_lambda': 'fn%d' % i, 'self_shadow_nested': 'self.%s' % n,
+            'param_shadow_lambda': 'fn%d' % i, 'param_shadow_kwonly': 'fn%d' % i, 'self_shadow_nested': 'self.%s' % n, 'param_default': 'fn%d' % i,
         }[route]
     has_po = any(p.kind == PO for p in outer)
     first_kind = PO if has_po else POK
@@ -444,14 +474,22 @@ def render(prog):
         extra_first = [Par('self', first_kind)]
     elif route == 'classmethod_cls':
         extra_first = [Par('cls', first_kind)]
-    elif route in ('param', 'param_shadow_lambda'):
+    elif route in ('param', 'param_shadow_lambda', 'param_shadow_kwonly'):
         extra_first = [Par('fn%d' % i, first_kind) for i in range(len(leaves))]
-    header = universe.spec_text(tuple(extra_first) + tuple(outer))
+    hspec = tuple(extra_first) + tuple(outer)
+    if route == 'param_default':
+        # the callee is a keyword-only parameter with a default; the partial object binds another parameter, so discovery
+        # runs with known arguments, but the callee is whatever the caller passes
+        fns = tuple(Par('fn%d' % i, KWO, 'ALT') for i in range(len(leaves)))
+        cut = next((i for i, p in enumerate(outer) if p.kind == VK), len(outer))
+        hspec = (Par('lead', first_kind),) + tuple(outer[:cut]) + fns + tuple(outer[cut:])
+    header = universe.spec_text(hspec)
     # body --------------------------------------------------------------------------
     body = []
     fmt = {'A': va or 'args', 'K': vk or 'kwargs'}
     for d in range(prog['decoys']):
         body.append(['_tmp%d = %d\n' % (d, d), 'DECOY(%d, key=%d)\n' % (d, d), 'OTHER(1)\n'][d % 3])
+    hoist_at = len(body)
     for t in prog['taints']:
         if t['where'] == 'before':
             body.append((TAINTS.get(t['name']) or HARMLESS[t['name']])[1].format(**fmt) + '\n')
@@ -466,6 +504,7 @@ def render(prog):
         if c.get('unres'):
             body.append('_loc%d = DECOY(ALT)\n' % j)
     stmts = []
+    hoisted = []
     for j, c in enumerate(prog['calls']):
         expr = _call_expr(prog, c, '_loc%d' % j if c.get('unres') else callee_expr[c['to']], outer, j)
         if route == 'shadow_posonly':
@@ -477,18 +516,28 @@ def render(prog):
         elif route == 'param_shadow_lambda':
             # the lambda's parameter is spelled like the wrapper's (whose value is known through the partial object)
             expr = '(lambda fn%d: %s)(ALT)' % (c['to'], expr)
+        elif route == 'param_shadow_kwonly':
+            # the same with a keyword-only parameter of the nested function
+            expr = '(lambda *, fn%d=ALT: %s)()' % (c['to'], expr)
         elif route == 'self_shadow_nested':
             # a nested function's own `self` is another object
             expr = '(lambda self: %s)(OTHERSELF)' % expr
         elif route == 'shadow_nested':
             stmts.append(None)
         s = _stmt(c['ctx'], expr, j)
+        if HOIST in s:
+            if route == 'shadow_nested':
+                s = s.replace(HOIST, '')
+            else:
+                early, s = s.split(HOIST)
+                hoisted.append(early)
         if c['ctx'] in ('comp_rebinds_args', 'comp_rebinds_kwargs'):
             s = s.replace('{A}', va or 'args').replace('{K}', vk or 'kwargs')
         if route == 'shadow_nested':
             stmts.pop()
             s = 'def _sh%d(L%d):\n%s    return _r%d\n_r%d = _sh%d(ALT)\n' % (j, c['to'], _indent(s), j, j, j)
         stmts.append(s + 'RES.append(_r%d)\n' % j)
+    body[hoist_at:hoist_at] = hoisted
     if prog['multi'] == 'branch' and len(stmts) > 1:
         for j, s in enumerate(stmts):
             body.append('%s SEL == %d:\n%s' % ('if' if j == 0 else 'elif', j, _indent(s)))
@@ -530,9 +579,11 @@ def render(prog):
         src += ''.join(leaf_srcs)
         src += 'NS = types.SimpleNamespace(sub=types.SimpleNamespace(%s))\n' % ', '.join('L%d=L%d' % (i, i) for i in range(len(leaves)))
         src += wdef + 'TARGET = WFUNC = w\n'
-    elif route in ('param', 'param_shadow_lambda'):
+    elif route in ('param', 'param_shadow_lambda', 'param_shadow_kwonly'):
         src += ''.join(leaf_srcs) + wdef
         src += 'WFUNC = w\nTARGET = functools.partial(w, %s)\n' % ', '.join('L%d' % i for i in range(len(leaves)))
+    elif route == 'param_default':
+        src += ''.join(leaf_srcs) + wdef + 'WFUNC = w\nTARGET = functools.partial(w, 0)\n'
     elif route == 'noncallable':
         src += ''.join(leaf_srcs) + 'NONCALLABLE = 5\n' + wdef + 'TARGET = WFUNC = w\n'
     else:
@@ -657,6 +708,10 @@ class Built(object):
         del g['RES'][:]
         args = [100 + i for i in range(npos)]
         kwargs = {k: 'k_' + k for k in kws}
+        if self.prog['route'] == 'param_default':
+            for k in kwargs:
+                if k.startswith('fn') and k[2:].isdigit():
+                    kwargs[k] = g['OTHER']          # a caller-chosen callee
         try:
             self.target(*args, **kwargs)
         except TypeError as e:
